@@ -646,6 +646,72 @@ def _alph_ctor(tier, seed):
     return {"shapes": [list(s) for s in shapes(tier)], "kinds": KINDS, "tol": [None, 1e-6], "reps": [1, 2]}
 
 
+# ================================================================================================ C08.history
+def hist_cases(tier, seed):
+    games = [{"X": 2, "Y": 2, "code": 8, "dist": "uniform"}, {"X": 2, "Y": 3, "code": 0b100110, "dist": "g0"},
+             {"X": 3, "Y": 3, "code": 0b101100011, "dist": "zero_entry" if "zero_entry" in dist_keys(tier) else "g0"},
+             {"X": 3, "Y": 2, "code": 0b011010, "dist": "g0"}]
+    for g in games:
+        for reps in (1, 2):
+            yield dict(g, reps=reps, depth=2 if tier == "quick" else 3)
+
+
+def hist_check(case):
+    """BFS over call histories of one XORGame object and of one converted NonlocalGame object: stored matrices unchanged in
+    every state, every value equal to the value from the initial state."""
+    from mc.history import explore
+    from mc.own import digest
+    from toqito.nonlocal_games.xor_game import XORGame
+
+    X, Y, W, f, S, tot = build(case)
+    P0 = R.prob_floats(W)
+    F0 = np.array(f, dtype=np.int64)
+    holder = {}
+
+    def make():
+        holder["P"], holder["F"] = P0.copy(), F0.copy()
+        g = XORGame(holder["P"], holder["F"], case["reps"])
+        return {"g": g, "conv": g.to_nonlocal_game() if case["reps"] == 1 else None}
+
+    def apply(o, ev):
+        if ev.startswith("conv_"):
+            if o["conv"] is None:
+                return None
+            fn = getattr(o["conv"], ev[5:])
+        else:
+            fn = getattr(o["g"], ev)
+        v, exc = call(fn)
+        if exc is not None:
+            return "EXC:" + exc_text(exc)
+        return None if v is None else round(float(np.real(v)), 4)
+
+    def dig(o):
+        parts = [digest(np.asarray(o["g"].prob_mat), np.asarray(o["g"].pred_mat)), repr(getattr(o["g"], "reps", None))]
+        if o["conv"] is not None:
+            parts.append(digest(np.asarray(o["conv"].prob_mat), np.asarray(o["conv"].pred_mat)))
+        return "|".join(parts)
+
+    def invariant(o, hist):
+        if not (np.array_equal(holder["P"], P0) and np.array_equal(holder["F"], F0)):
+            return "the caller's matrices were modified"
+        return None
+
+    def same(a, b, ev):
+        if isinstance(a, str) or isinstance(b, str) or a is None or b is None:
+            return a == b
+        return abs(a - b) <= 2 * SCS
+
+    events = ["quantum_value", "classical_value"] + (["nonsignaling_value", "conv_classical_value", "conv_nonsignaling_value"] if case["reps"] == 1 else [])
+    stats, bad = explore(make, events, apply, dig, invariant, same, case["depth"])
+    for b in bad:
+        return viol(f"XOR game call history: {b['kind']} after {b.get('history')}: {b.get('detail', '')} {b.get('after_history', '')} vs "
+                    f"{b.get('from_initial', '')}", site="xor_history:" + b["kind"], observed=repr(b)[:300])
+    if stats["states"] != 1:
+        return viol("a value method changed the stored matrices of the game object", site="xor_history:state", observed=stats)
+    return ok(True, obs=[stats["states"], stats["transitions"], stats["histories"]], states=stats["states"],
+              transitions=stats["transitions"], histories=stats["histories"])
+
+
 CLAUSES = [
     Clause("C08.bell_max", bm_cases, bm_check, tol="2e-3", chunk=2, weight=0.6, alphabets=_alph_bell, probe=3,
            doc="bell_inequality_max (m=2) = Jordan-lemma quantum maximum; >= best deterministic; pure correlators inside the "
@@ -663,4 +729,6 @@ CLAUSES = [
            doc="CHSH family cos^2(pi/8); odd cycles cos^2(pi/4n), classical 1-1/2n; reps 1,2"),
     Clause("C08.constructor", ct_cases, ct_check, tol="exact", probe=4, alphabets=_alph_ctor,
            doc="shape mismatch / negative entries / sum != 1 beyond tol raise ValueError; valid-within-tol games are accepted"),
+    Clause("C08.history", hist_cases, hist_check, tol="scs", chunk=1, weight=6.0, probe=1,
+           doc="BFS over call histories of one XORGame object and its converted NonlocalGame: matrices unchanged, values reproducible"),
 ]
